@@ -175,14 +175,14 @@ CLAIMS['C16'] = ('loop/call skeleton regenerated from /repo equals the expected 
 
 # second tie: statement-level translators regenerate Gallina from the sources on every run; Gen*Eq.v proves it equal to the model
 TIES = {
-    'C01': 'gen_sched.py (async_scheduler.py: gen_agrees), gen_jobs.py + gen_builder.py through the generated history machine (GenSystem.gen_run_is_model and its corollaries, all stated in props/C01.v)',
+    'C01': 'gen_sched.py (async_scheduler.py: gen_agrees), gen_jobs.py + gen_builder.py through the generated history machine (GenSystem.gen_run_is_model and its corollaries, all stated in props/C01.v), gen_init.py (the constructors: gen_init = Sched.init, so the generated history machine starts from a generated state)',
     'C02': 'gen_sched.py, gen_jobs.py, gen_builder.py (builder/jobs.py, job store, controls: gen_add_job_is_create, store first)',
     'C03': 'through C01 / C02 (scheduler, jobs, builder) and C05 (producers); disturbed_job_exact for a job among others',
     'C04': 'gen_prod.py (gen_get_next_is_model: every generated producer = Producers.get_next)',
     'C05': 'gen_prod.py (interval / time / group get_next and the filters)',
     'C06': 'gen_prod.py (TimeProducer.get_next, TimeReplacer.replace, find_time_after_dst_switch)',
-    'C07': 'gen_jobs.py (set_next_run, callbacks, API operations against step_op), gen_builder.py (store, controls)',
-    'C08': 'gen_jobs.py (one-shot / countdown classes: update_next, reset, set_countdown)',
+    'C07': 'gen_jobs.py (set_next_run, callbacks, API operations against step_op), gen_builder.py (store, controls), gen_init.py (constructors of scheduler, store, job classes, callback handler = init / new_job)',
+    'C08': 'gen_jobs.py (one-shot / countdown classes: update_next, reset, set_countdown), gen_init.py (their constructors; CountdownJob.__init__ runs the generated set_countdown)',
     'C09': 'gen_sched.py (insort / run_jobs loop), gen_jobs.py (__lt__ = job_lt)',
     'C10': 'gen_sched.py (try / except of run_jobs), gen_builder.py + gen_taskmgr.py (GenAsyncSystem: generated executor on generated managers); the C10_generated_system_* theorems of the generated history machine are stated in props/C01.v',
     'C11': 'gen_taskmgr.py (the three sequential classes: gen_create_task_is_submit, gen_done_cb_is_model)',
